@@ -465,7 +465,7 @@ impl<'input> Tokenizer<'input> {
                     continue;
                 } else if c == 'r' {
                     self.bump();
-                    if let Some((idx, '#')) = self.lookahead {
+                    if let Some((_, '#' | '"')) = self.lookahead {
                         self.regex_literal(idx)?;
                     }
                     continue;
